@@ -17,6 +17,8 @@ API (kept small on purpose; C01 C04 C05 C06 C07 C08 C09 C10 C12 import it)
                          calls: 'ok' (default when exhausted) or an exception instance to raise
     World.connects     : [(host, port), ...] every address requested, in order
     World.make_handler(sock, addr)           # wrap an arbitrary socket-like object in a real handler
+    ex = w.executor({cs.fileno(): h})        # a REAL LocalFdExecutor (Threadless) holding the given handlers
+    w.reap(ex)                               # the REAL Threadless._cleanup_inactive(): closes the inactive works
 
     ScriptedSocket(real, name, peer)  proxy-side end of a socketpair.  fileno/close/shutdown/
         setblocking/... go to the real socket (so real selectors work); each send()/recv()
@@ -381,6 +383,19 @@ class World:
         s = ScriptedSocket(a, 'client%d' % len(self.clients), peer, strict=self.strict)
         self.clients.append((s, peer))
         return self.make_handler(s, addr), s, peer
+
+    # -- the real executor around existing handlers ---------------------------------
+    def executor(self, works):
+        """A real LocalFdExecutor whose `works` are the given {fileno: handler}."""
+        from proxy.core.work.fd import LocalFdExecutor
+        from proxy.common.backports import NonBlockingQueue
+        ex = LocalFdExecutor('sim', NonBlockingQueue(), self.flags)
+        ex.works.update(works)
+        return ex
+
+    def reap(self, ex):
+        """Threadless._cleanup_inactive() as _run_forever calls it."""
+        ex._cleanup_inactive()
 
     # -- stepping ---------------------------------------------------------------
     def run(self, coro):
